@@ -9,6 +9,7 @@ import dets
 import gen
 from common import Outcome, np, rng_for
 
+RULE_ADDENDA = ('windows of 100-140 with test samples > 50 and threshold-adjacent alphas; KSWIN seeds in fresh interpreters; STEPD with uint8/int8 indicators and 33 500+ predictions')
 LEVEL = "proof"
 SHRINK_KEYS = ("stream",)
 EXPLANATION = ("Theorems (Lean): KSWIN window = last min(t,W) values, drift iff ksP(sample, newest) <= alpha for the drawn tape, all-/none-reject corollaries, "
